@@ -39,7 +39,13 @@ func (c ByteCodec) Encode(i interface{}) ([]byte, error) {
 
 // Decode returns raw slice of bytes.
 func (c ByteCodec) Decode(data []byte, i interface{}) error {
-	reflect.Indirect(reflect.ValueOf(i)).SetBytes(data)
+	v := reflect.Indirect(reflect.ValueOf(i))
+	// SetBytes panics on anything but a settable []byte (a nil reply of a one-way call, a reply
+	// value of another type): report an error like the other codecs do
+	if !v.IsValid() || !v.CanSet() || v.Kind() != reflect.Slice || v.Type().Elem().Kind() != reflect.Uint8 {
+		return fmt.Errorf("%T is not a *[]byte", i)
+	}
+	v.SetBytes(data)
 	return nil
 }
 
